@@ -445,3 +445,516 @@ Proof.
   rewrite Hp, (has_panic_enc_parse _ (good_parse_read srp)), (has_panic_enc_parse _ (good_parse_write swp)).
   reflexivity.
 Qed.
+
+(** * Kind 6: digest sets *)
+
+(** ** The set monitor, clause by clause (definitionally [mon_sets]) *)
+Definition m_entry_of (entries : list sx) (us : list bytes) (x : bytes) : sx :=
+  match find (fun i => beqb (nth i us []) x) (seq 0 (length entries)) with
+  | Some i => nth i entries (L [])
+  | None => L []
+  end.
+Definition m_inst_of entries us x := sxb (sx_nth (m_entry_of entries us x) 0).
+Definition m_size_of entries us x := sx_Z (sx_nth (m_entry_of entries us x) 3).
+Definition m_noinst (e : sx) := L [sx_nth e 1; sx_nth e 2; sx_nth e 3].
+Definition c6 (entries : list sx) (us k0 : list bytes) : bool :=
+  negb (forallb (fun i => forallb (fun j =>
+          Bool.eqb (beqb (nth i us []) (nth j us [])) (sx_eqb (nth i entries (L [])) (nth j entries (L [])))
+          && Bool.eqb (beqb (nth i k0 []) (nth j k0 []))
+                      (sx_eqb (m_noinst (nth i entries (L []))) (m_noinst (nth j entries (L [])))))
+        (seq 0 (length entries))) (seq 0 (length entries)))
+  || negb (Nat.eqb (length us) (length entries)) || negb (Nat.eqb (length k0) (length entries)).
+Definition c10 (sets : list (list nat)) (us : list bytes) (built : list (list bytes)) : bool :=
+  negb (Nat.eqb (length built) (length sets))
+  || negb (forallb (fun p : list nat * list bytes => strictly_sorted (snd p)
+                               && same_set (snd p) (map (fun i => nth i us []) (fst p)))
+                   (combine sets built)).
+Definition c11 (built : list (list bytes)) (u : list bytes) (o8 o3 : sx) : bool :=
+  negb (strictly_sorted u && same_set u (concat built)) || negb (sx_eqb o8 o3).
+Definition c12 (a b l0 l1 l2 : list bytes) : bool :=
+  negb (strictly_sorted l0 && strictly_sorted l1 && strictly_sorted l2
+        && same_set l0 (filter (fun x => negb (memb x b)) a)
+        && same_set l1 (filter (fun x => memb x b) a)
+        && same_set l2 (filter (fun x => negb (memb x a)) b)).
+Definition c13 entries us (u : list bytes) (o5 : sx) : bool :=
+  negb (sx_eqb o5 (L [A 0; enc_sets (map (fun i => filter (fun x => beqb (m_inst_of entries us x) i) u)
+                                         (first_occ [] (map (m_inst_of entries us) u)))])).
+Definition c14 entries us (u : list bytes) (o6 : sx) : bool :=
+  negb (sx_eqb o6 (L [A 0; enc_list (filter (fun x => negb (m_size_of entries us x =? 0)) u)])).
+Definition c15 (built : list (list bytes)) (o7 : sx) : bool :=
+  negb (sx_eqb o7 (L (map (fun s => of_option enc_bytes (match s with [] => None | x :: _ => Some x end)) built))).
+
+Lemma mon_sets_eq inp obs :
+  mon_sets inp obs =
+  let entries := sx_list (sx_nth inp 1) in
+  let sets := map sx_nats (sx_list (sx_nth inp 2)) in
+  let us := map sxb (sx_list (sx_nth obs 0)) in
+  let k0 := map (fun s => sxb (ok_val s)) (sx_list (sx_nth obs 1)) in
+  let built := map (fun s => map sxb (sx_list s)) (sx_list (sx_nth obs 2)) in
+  let u := map sxb (sx_list (sx_nth obs 3)) in
+  let lst (s : sx) := map sxb (sx_list s) in
+  flag 9 (has_panic obs) ++ flag 6 (c6 entries us k0) ++ flag 10 (c10 sets us built) ++
+  flag 11 (c11 built u (sx_nth obs 8) (sx_nth obs 3)) ++
+  flag 12 (c12 (nth 0 built []) (nth 1 built []) (lst (sx_nth (sx_nth obs 4) 0)) (lst (sx_nth (sx_nth obs 4) 1))
+               (lst (sx_nth (sx_nth obs 4) 2))) ++
+  flag 13 (c13 entries us u (sx_nth obs 5)) ++ flag 14 (c14 entries us u (sx_nth obs 6)) ++
+  flag 15 (c15 built (sx_nth obs 7)).
+Proof. reflexivity. Qed.
+
+(** ** Generic facts *)
+Lemma strictly_sorted_of l : sorted l -> strictly_sorted l = true.
+Proof.
+  induction l as [|x r IH]; intro H; [reflexivity|]. cbn [strictly_sorted].
+  destruct r as [|y r']; [reflexivity|].
+  pose proof (sorted_head_lt x (y :: r') y H (or_introl eq_refl)) as Hlt. unfold blt in Hlt. rewrite Hlt.
+  apply IH. eapply sorted_tail; eauto.
+Qed.
+
+Lemma subset_intro a b : (forall x, In x a -> In x b) -> subset a b = true.
+Proof. intro H. unfold subset. apply forallb_forall. intros x Hx. apply memb_In, H, Hx. Qed.
+
+Lemma same_set_intro a b : (forall x, In x a <-> In x b) -> same_set a b = true.
+Proof. intro H. unfold same_set. rewrite !subset_intro; [reflexivity| |]; intros x Hx; apply H, Hx. Qed.
+
+Lemma sorted_ext a : forall b, sorted a -> sorted b -> (forall x, In x a <-> In x b) -> a = b.
+Proof.
+  induction a as [|x a IH]; intros b Ha Hb H.
+  - destruct b as [|y b]; [reflexivity|]. exfalso. apply (H y). left. reflexivity.
+  - destruct b as [|y b]; [exfalso; apply (H x); left; reflexivity|].
+    assert (Exy : x = y).
+    { destruct (proj1 (H x) (or_introl eq_refl)) as [E|Hxb]; [auto|].
+      destruct (proj2 (H y) (or_introl eq_refl)) as [E|Hya]; [auto|].
+      pose proof (sorted_head_lt _ _ _ Hb Hxb) as L1. pose proof (sorted_head_lt _ _ _ Ha Hya) as L2.
+      unfold blt in *. rewrite (bltb_asym _ _ L1) in L2. discriminate. }
+    subst y. f_equal. apply IH; [eapply sorted_tail; eauto|eapply sorted_tail; eauto|].
+    pose proof (sorted_NoDup _ Ha) as Na. pose proof (sorted_NoDup _ Hb) as Nb.
+    inversion Na; inversion Nb; subst.
+    intro z. split; intro Hz.
+    + destruct (proj1 (H z) (or_intror Hz)) as [E|Hzb]; [subst; contradiction|exact Hzb].
+    + destruct (proj2 (H z) (or_intror Hz)) as [E|Hza]; [subst; contradiction|exact Hza].
+Qed.
+
+Lemma first_occ_firsts_gen l : forall acc seen,
+  (forall x, memb x seen = existsb (beqb x) acc) ->
+  fold_left (fstep beqb) l acc = acc ++ first_occ seen l.
+Proof.
+  induction l as [|x r IH]; intros acc seen H; cbn [fold_left first_occ]; [rewrite app_nil_r; reflexivity|].
+  unfold fstep at 2. rewrite <- H. destruct (memb x seen) eqn:E.
+  - apply IH, H.
+  - rewrite (IH (acc ++ [x]) (x :: seen)).
+    + rewrite <- app_assoc. reflexivity.
+    + intro y. rewrite existsb_app. cbn [memb existsb]. unfold memb in H. rewrite <- H.
+      unfold memb. rewrite orb_false_r. apply orb_comm.
+Qed.
+
+Lemma first_occ_firsts l : first_occ [] l = firsts beqb l.
+Proof. unfold firsts. rewrite (first_occ_firsts_gen l [] []); [reflexivity|]. intro x. reflexivity. Qed.
+
+Lemma filter_map_comm {X Y} (p : Y -> bool) (f : X -> Y) l :
+  filter p (map f l) = map f (filter (fun x => p (f x)) l).
+Proof.
+  induction l as [|x r IH]; [reflexivity|]. cbn [map filter]. destruct (p (f x)); cbn [map]; rewrite IH; reflexivity.
+Qed.
+
+Lemma filter_ext_in' {X} (p q : X -> bool) l : (forall x, In x l -> p x = q x) -> filter p l = filter q l.
+Proof.
+  induction l as [|x r IH]; intro H; [reflexivity|]. cbn [filter].
+  rewrite (H x (or_introl eq_refl)), IH; [reflexivity|]. intros y Hy. apply H. right. exact Hy.
+Qed.
+
+Lemma nth_map_lt {X Y} (f : X -> Y) l i dx dy : (i < length l)%nat -> nth i (map f l) dy = f (nth i l dx).
+Proof. intro H. rewrite (nth_indep _ dy (f dx)) by (rewrite map_length; exact H). apply map_nth. Qed.
+
+Lemma eqb_iff (a b : bool) : (a = true <-> b = true) -> Bool.eqb a b = true.
+Proof. destruct a, b; intros [H1 H2]; try reflexivity; [specialize (H1 eq_refl)|specialize (H2 eq_refl)]; discriminate. Qed.
+
+Lemma dec_enc_list l : map sxb (sx_list (enc_list l)) = l.
+Proof.
+  unfold enc_list. cbn [sx_list]. rewrite map_map. rewrite <- (map_id l) at 2. apply map_ext. apply sxb_enc.
+Qed.
+
+Lemma dec_enc_sets l : map (fun s => map sxb (sx_list s)) (sx_list (enc_sets l)) = l.
+Proof.
+  unfold enc_sets. cbn [sx_list]. rewrite map_map. rewrite <- (map_id l) at 2. apply map_ext. apply dec_enc_list.
+Qed.
+
+(** ** Universe entries *)
+Definition enc_entry (d : digest) : sx :=
+  L [enc_bytes (d_inst d); of_N (d_fn d); enc_bytes (d_hash d); A (d_size d)].
+
+Lemma sx_Ns_enc b : sx_Ns (enc_bytes b) = b.
+Proof. exact (sxb_enc b). Qed.
+
+Lemma dec_entry_enc d : valid_digest d -> dec_entry (enc_entry d) = Ok (pack d).
+Proof.
+  intro V. unfold dec_entry, enc_entry. rewrite !sx_nth_L. cbn [nth sx_Z]. rewrite sx_N_of_N, !sx_Ns_enc.
+  rewrite (instance_name_accepts_valid_proof _ (vd_inst d V)). cbn [bind].
+  destruct (valid_bare d V) as (hb & Hgb & _). unfold get_digest_function. rewrite Hgb. cbn [bind].
+  apply new_digest_valid; assumption.
+Qed.
+
+Lemma map_outcome_entries ds :
+  Forall valid_digest ds -> map_outcome dec_entry (map enc_entry ds) = Ok (map pack ds).
+Proof.
+  induction 1 as [|d ds V _ IH]; [reflexivity|]. cbn [map map_outcome].
+  rewrite (dec_entry_enc d V). cbn [bind]. rewrite IH. reflexivity.
+Qed.
+
+Lemma pack_inj d1 d2 : valid_digest d1 -> valid_digest d2 -> pack d1 = pack d2 -> d1 = d2.
+Proof.
+  intros V1 V2 E. apply (key_with_instance_eq_iff d1 d2 V1 V2).
+  change (get_key (pack d1) 1) with (Ok (pack d1)). change (get_key (pack d2) 1) with (Ok (pack d2)).
+  rewrite E. reflexivity.
+Qed.
+
+Lemma enc_entry_inj d1 d2 : enc_entry d1 = enc_entry d2 -> d1 = d2.
+Proof.
+  unfold enc_entry. intro H.
+  pose proof (f_equal (fun s => sxb (sx_nth s 0)) H) as H1.
+  pose proof (f_equal (fun s => sx_N (sx_nth s 1)) H) as H2.
+  pose proof (f_equal (fun s => sxb (sx_nth s 2)) H) as H3.
+  pose proof (f_equal (fun s => sx_Z (sx_nth s 3)) H) as H4.
+  cbv beta in H1, H2, H3, H4. rewrite !sx_nth_L in H1, H2, H3, H4. cbn [nth sx_Z] in H1, H2, H3, H4.
+  rewrite !sxb_enc in H1, H3. rewrite !sx_N_of_N in H2.
+  destruct d1, d2. cbn in *. subst. reflexivity.
+Qed.
+
+Section Universe.
+  Variable ds : list digest.
+  Hypothesis V : Forall valid_digest ds.
+  Local Notation entries := (map enc_entry ds).
+  Local Notation us := (map pack ds).
+  Let d0 : digest := {| d_fn := 0%N; d_hash := []; d_size := 0; d_inst := [] |}.
+
+  Lemma valid_in d : In d ds -> valid_digest d.
+  Proof. rewrite Forall_forall in V. apply V. Qed.
+
+  Lemma nth_us i : (i < length ds)%nat -> nth i us [] = pack (nth i ds d0).
+  Proof. apply nth_map_lt. Qed.
+  Lemma nth_entries i : (i < length ds)%nat -> nth i entries (L []) = enc_entry (nth i ds d0).
+  Proof. apply nth_map_lt. Qed.
+
+  Lemma entry_of_pack d : In d ds -> m_entry_of entries us (pack d) = enc_entry d.
+  Proof.
+    intro Hd. unfold m_entry_of. rewrite map_length.
+    destruct (find (fun i => beqb (nth i us []) (pack d)) (seq 0 (length ds))) as [i|] eqn:Ef.
+    - apply find_some in Ef. destruct Ef as [Hi Hb]. apply in_seq in Hi. apply beqb_eq in Hb.
+      rewrite nth_us in Hb by lia. rewrite nth_entries by lia. f_equal.
+      apply pack_inj; [apply valid_in, nth_In; lia|apply valid_in, Hd|exact Hb].
+    - exfalso. destruct (In_nth _ _ d0 Hd) as (j & Hj & Ej).
+      pose proof (find_none _ _ Ef j) as Hn. cbv beta in Hn.
+      rewrite nth_us, Ej, beqb_refl in Hn by exact Hj. specialize (Hn ltac:(apply in_seq; lia)). discriminate.
+  Qed.
+
+  Lemma c6_false : c6 entries us (map key0 ds) = false.
+  Proof.
+    unfold c6. rewrite !map_length, Nat.eqb_refl. cbn [negb orb]. rewrite !orb_false_r.
+    apply negb_false_iff, forallb_forall. intros i Hi. apply forallb_forall. intros j Hj.
+    apply in_seq in Hi. apply in_seq in Hj.
+    rewrite !nth_us, !nth_entries by lia.
+    rewrite (nth_map_lt key0 ds i d0 []), (nth_map_lt key0 ds j d0 []) by lia.
+    set (di := nth i ds d0). set (dj := nth j ds d0).
+    assert (Vi : valid_digest di) by (apply valid_in, nth_In; lia).
+    assert (Vj : valid_digest dj) by (apply valid_in, nth_In; lia).
+    apply andb_true_intro. split; apply eqb_iff.
+    - split; intro H.
+      + apply beqb_eq in H. apply pack_inj in H; [|assumption|assumption]. rewrite H. apply sx_eqb_refl.
+      + apply sx_eqb_eq, enc_entry_inj in H. rewrite H. apply beqb_refl.
+    - destruct (pack_unpack_accessors di Vi) as (_ & _ & _ & _ & _ & _ & Ki & _).
+      destruct (pack_unpack_accessors dj Vj) as (_ & _ & _ & _ & _ & _ & Kj & _).
+      pose proof (key_without_instance_eq_iff di dj Vi Vj) as K. rewrite Ki, Kj in K.
+      unfold m_noinst, enc_entry. rewrite !sx_nth_L. cbn [nth].
+      split; intro H.
+      + apply beqb_eq in H. destruct (proj1 K (f_equal Ok H)) as (E1 & E2 & E3).
+        rewrite E1, E2, E3. apply sx_eqb_refl.
+      + apply sx_eqb_eq in H.
+        pose proof (f_equal (fun s => sx_N (sx_nth s 0)) H) as H1.
+        pose proof (f_equal (fun s => sxb (sx_nth s 1)) H) as H2.
+        pose proof (f_equal (fun s => sx_Z (sx_nth s 2)) H) as H3.
+        cbv beta in H1, H2, H3. rewrite !sx_nth_L in H1, H2, H3. cbn [nth sx_Z] in H1, H2, H3.
+        rewrite !sx_N_of_N in H1. rewrite !sxb_enc in H2.
+        assert (E : Ok (key0 di) = Ok (key0 dj)) by (apply K; auto).
+        inversion E as [E']. rewrite E'. apply beqb_refl.
+  Qed.
+
+  (** lists of members of the universe *)
+  Lemma members l : (forall x, In x l -> In x us) ->
+    exists dl, l = map pack dl /\ Forall (fun d => In d ds) dl.
+  Proof.
+    induction l as [|x r IH]; intro H; [exists []; split; [reflexivity|constructor]|].
+    destruct IH as (dl & -> & Hdl); [intros y Hy; apply H; right; exact Hy|].
+    destruct (proj1 (in_map_iff _ _ _) (H x (or_introl eq_refl))) as (d & <- & Hd).
+    exists (d :: dl). split; [reflexivity|constructor; assumption].
+  Qed.
+
+  Lemma inst_of_pack d : In d ds -> m_inst_of entries us (pack d) = d_inst d.
+  Proof.
+    intro Hd. unfold m_inst_of. rewrite (entry_of_pack d Hd). unfold enc_entry. rewrite sx_nth_L. cbn [nth].
+    apply sxb_enc.
+  Qed.
+  Lemma size_of_pack d : In d ds -> m_size_of entries us (pack d) = d_size d.
+  Proof.
+    intro Hd. unfold m_size_of. rewrite (entry_of_pack d Hd). unfold enc_entry. rewrite sx_nth_L. reflexivity.
+  Qed.
+
+  Lemma c13_false dl :
+    Forall (fun d => In d ds) dl ->
+    c13 entries us (map pack dl) (enc_out enc_sets (partition_by_instance_name (map pack dl))) = false.
+  Proof.
+    intro Hdl. assert (Vdl : Forall valid_digest dl).
+    { apply Forall_forall. intros d Hd. rewrite Forall_forall in Hdl. apply valid_in, Hdl, Hd. }
+    unfold c13. rewrite (partition_spec_proof dl Vdl). cbn [enc_out]. apply negb_false_iff.
+    match goal with |- sx_eqb ?a ?b = true => replace b with a; [apply sx_eqb_refl|] end.
+    do 3 f_equal. rewrite map_map.
+    assert (E : map (fun x => m_inst_of entries us (pack x)) dl = map d_inst dl).
+    { apply map_ext_in. intros d Hd. apply inst_of_pack. rewrite Forall_forall in Hdl. apply Hdl, Hd. }
+    rewrite E, first_occ_firsts. f_equal. apply map_ext. intro i.
+    rewrite filter_map_comm. f_equal. apply filter_ext_in'. intros d Hd.
+    rewrite inst_of_pack; [reflexivity|]. rewrite Forall_forall in Hdl. apply Hdl, Hd.
+  Qed.
+
+  Lemma c14_false dl :
+    Forall (fun d => In d ds) dl -> sorted (map pack dl) ->
+    c14 entries us (map pack dl) (enc_out enc_list (remove_empty_blob (map pack dl))) = false.
+  Proof.
+    intros Hdl Hs. assert (Vdl : Forall valid_digest dl).
+    { apply Forall_forall. intros d Hd. rewrite Forall_forall in Hdl. apply valid_in, Hdl, Hd. }
+    unfold c14. destruct (remove_empty_spec_proof dl Vdl Hs) as (r & -> & _ & ->). cbn [enc_out].
+    apply negb_false_iff.
+    assert (E : filter (fun x => negb (m_size_of entries us x =? 0)) (map pack dl)
+                = map pack (filter (fun d => negb (d_size d =? 0)) dl)).
+    { rewrite filter_map_comm. f_equal. apply filter_ext_in'. intros d Hd.
+      rewrite size_of_pack; [reflexivity|]. rewrite Forall_forall in Hdl. apply Hdl, Hd. }
+    rewrite E. apply sx_eqb_refl.
+  Qed.
+End Universe.
+
+Lemma first_occ_in l : forall seen k, In k (first_occ seen l) <-> (In k l /\ memb k seen = false).
+Proof.
+  induction l as [|a l IH]; intros seen k; cbn [first_occ].
+  - split; [intros []|intros [[] _]].
+  - destruct (memb a seen) eqn:E.
+    + rewrite IH. split; intros [H1 H2]; (split; [|exact H2]); [right; exact H1|].
+      destruct H1 as [->|H1]; [congruence|exact H1].
+    + cbn [In]. rewrite IH.
+      assert (Hm : memb k (a :: seen) = beqb k a || memb k seen) by reflexivity.
+      rewrite Hm. split.
+      * intros [->|[H1 H2]]; [split; [left; reflexivity|exact E]|].
+        apply orb_false_iff in H2. destruct H2 as [_ H2]. split; [right; exact H1|exact H2].
+      * intros [[->|H1] H2]; [left; reflexivity|].
+        destruct (beqb k a) eqn:Eb; [apply beqb_eq in Eb; subst; left; reflexivity|].
+        right. split; [exact H1|]. cbn [orb]. exact H2.
+Qed.
+
+Lemma sorted_map_filter {X} (f : X -> bytes) (p : X -> bool) l :
+  sorted (map f l) -> sorted (map f (filter p l)).
+Proof.
+  induction l as [|x l IH]; intro H; [constructor|]. cbn [map] in H. inversion H as [|? ? Hs Hx]; subst.
+  cbn [filter]. destruct (p x); [|apply IH, Hs]. cbn [map]. constructor; [apply IH, Hs|].
+  rewrite Forall_forall in *. intros y Hy. apply Hx. apply in_map_iff in Hy. destruct Hy as (z & <- & Hz).
+  apply filter_In in Hz. apply in_map. tauto.
+Qed.
+
+Lemma combine_map_map {X Y Z} (f : X -> Y) (g : X -> Z) l :
+  combine (map f l) (map g l) = map (fun x => (f x, g x)) l.
+Proof. induction l as [|x l IH]; [reflexivity|]. cbn. rewrite IH. reflexivity. Qed.
+
+Lemma sorted_nil : sorted [].
+Proof. constructor. Qed.
+
+Lemma silent_sets inp ds :
+  Forall valid_digest ds -> sx_list (sx_nth inp 1) = map enc_entry ds ->
+  Forall (fun s => Forall (fun i => (i < length ds)%nat) (sx_nats s)) (sx_list (sx_nth inp 2)) ->
+  mon_sets inp (run_sets (sx_nth inp 1) (sx_nth inp 2)) = [].
+Proof.
+  intros V Hent Hsets. unfold run_sets. rewrite Hent, (map_outcome_entries ds V). cbv zeta.
+  set (us := map pack ds).
+  set (built := map (fun s : sx => build (map (fun i : nat => nth i us []) (sx_nats s))) (sx_list (sx_nth inp 2))).
+  set (u := union built).
+  destruct (diff_inter (nth 0 built []) (nth 1 built [])) as [[oa bo] ob] eqn:Edi.
+  assert (Hbs : Forall sorted built).
+  { apply Forall_forall. intros s Hs. apply in_map_iff in Hs. destruct Hs as (s0 & <- & _). apply build_spec_proof. }
+  assert (Hbm : forall s x, In s built -> In x s -> In x us).
+  { intros s x Hs Hx. apply in_map_iff in Hs. destruct Hs as (s0 & <- & Hs0).
+    apply (proj1 (proj2 (proj2 (build_spec_proof _)) _)) in Hx. apply in_map_iff in Hx. destruct Hx as (i & <- & Hi).
+    rewrite Forall_forall in Hsets. specialize (Hsets s0 Hs0). rewrite Forall_forall in Hsets.
+    apply nth_In. unfold us. rewrite map_length. apply Hsets, Hi. }
+  destruct (union_spec_proof built Hbs) as (Hus & _ & Hum). fold u in Hus, Hum.
+  destruct (members ds u) as (du & Hdu & Hdl).
+  { intros x Hx. apply Hum in Hx. destruct Hx as (s & Hs & Hx). eapply Hbm; eauto. }
+  assert (Vdu : Forall valid_digest du).
+  { apply Forall_forall. intros d Hd. rewrite Forall_forall in Hdl, V. apply V, Hdl, Hd. }
+  (* the partition joins back to the set *)
+  assert (Hpart : exists ps, partition_by_instance_name u = Ok ps /\ union ps = u).
+  { rewrite Hdu. rewrite (partition_spec_proof du Vdu). eexists. split; [reflexivity|].
+    set (ps := map _ (firsts beqb (map d_inst du))).
+    assert (Hps : Forall sorted ps).
+    { apply Forall_forall. intros p Hp. apply in_map_iff in Hp. destruct Hp as (i & <- & _).
+      apply sorted_map_filter. rewrite <- Hdu. exact Hus. }
+    destruct (union_spec_proof ps Hps) as (Hs & _ & Hm).
+    apply sorted_ext; [exact Hs|rewrite <- Hdu; exact Hus|].
+    intro x. rewrite Hm. split.
+    - intros (p & Hp & Hx). apply in_map_iff in Hp. destruct Hp as (i & <- & _).
+      apply in_map_iff in Hx. destruct Hx as (d & <- & Hd). apply filter_In in Hd. apply in_map. tauto.
+    - intro Hx. apply in_map_iff in Hx. destruct Hx as (d & <- & Hd).
+      exists (map pack (filter (fun d' => beqb (d_inst d') (d_inst d)) du)). split.
+      + apply in_map_iff. exists (d_inst d). split; [reflexivity|].
+        rewrite <- first_occ_firsts. apply first_occ_in. split; [apply in_map, Hd|reflexivity].
+      + apply in_map, filter_In. split; [exact Hd|apply beqb_refl]. }
+  destruct Hpart as (ps & Hps & Hups).
+  rewrite mon_sets_eq. cbv zeta. rewrite !sx_nth_L. cbn [nth]. try rewrite !sx_nth_L. cbn [nth].
+  rewrite Hent, !dec_enc_list, dec_enc_sets.
+  (* keys without instance name *)
+  assert (Hk0 : map (fun s => sxb (ok_val s)) (sx_list (L (map (fun v => enc_out enc_bytes (get_key v 0)) us)))
+                = map key0 ds).
+  { cbn [sx_list]. unfold us. rewrite !map_map. apply map_ext_in. intros d Hd.
+    rewrite Forall_forall in V. destruct (pack_unpack_accessors d (V d Hd)) as (_ & _ & _ & _ & _ & _ & K & _).
+    rewrite K. cbn [enc_out ok_val]. apply sxb_enc. }
+  rewrite Hk0.
+  pose proof (c6_false ds V) as H6. fold us in H6. rewrite H6.
+  (* Build *)
+  assert (H10 : c10 (map sx_nats (sx_list (sx_nth inp 2))) us built = false).
+  { unfold c10, built. rewrite !map_length, Nat.eqb_refl. cbn [negb orb]. apply negb_false_iff.
+    rewrite combine_map_map. apply forallb_forall. intros p Hp. apply in_map_iff in Hp.
+    destruct Hp as (s0 & <- & _). cbn [fst snd]. destruct (build_spec_proof (map (fun i : nat => nth i us []) (sx_nats s0))) as (B1 & _ & B3).
+    rewrite (strictly_sorted_of _ B1). cbn [andb]. apply same_set_intro. exact B3. }
+  rewrite H10.
+  (* GetUnion, and the union of the partition *)
+  assert (H11 : c11 built u (match partition_by_instance_name u with Ok ps0 => enc_list (union ps0) | _ => skipped end)
+                    (enc_list u) = false).
+  { unfold c11. rewrite Hps, Hups, sx_eqb_refl, (strictly_sorted_of _ Hus). cbn [andb negb orb].
+    rewrite orb_false_r. apply negb_false_iff, same_set_intro. intro x. rewrite Hum, in_concat. reflexivity. }
+  rewrite H11.
+  (* GetDifferenceAndIntersection *)
+  assert (Hn : forall i, sorted (nth i built [])).
+  { intro i. destruct (Nat.lt_ge_cases i (length built)) as [Hl|Hl].
+    - rewrite Forall_forall in Hbs. apply Hbs, nth_In, Hl.
+    - rewrite nth_overflow by exact Hl. apply sorted_nil. }
+  assert (H12 : c12 (nth 0 built []) (nth 1 built []) oa bo ob = false).
+  { pose proof (diff_inter_spec_proof _ _ (Hn 0%nat) (Hn 1%nat)) as D. rewrite Edi in D.
+    destruct D as ((S1 & S2 & S3) & M1 & M2 & M3).
+    unfold c12. rewrite (strictly_sorted_of _ S1), (strictly_sorted_of _ S2), (strictly_sorted_of _ S3).
+    cbn [andb]. apply negb_false_iff.
+    rewrite !same_set_intro; [reflexivity| | |].
+    - intro x. rewrite M3, filter_In. split; intros [A1 A2]; (split; [exact A1|]).
+      + apply negb_true_iff. destruct (memb x (nth 0 built [])) eqn:E; [|reflexivity]. apply memb_In in E. contradiction.
+      + intro Hin. apply memb_In in Hin. rewrite Hin in A2. discriminate.
+    - intro x. rewrite M2, filter_In. split; intros [A1 A2]; (split; [exact A1|]); apply memb_In; exact A2.
+    - intro x. rewrite M1, filter_In. split; intros [A1 A2]; (split; [exact A1|]).
+      + apply negb_true_iff. destruct (memb x (nth 1 built [])) eqn:E; [|reflexivity]. apply memb_In in E. contradiction.
+      + intro Hin. apply memb_In in Hin. rewrite Hin in A2. discriminate. }
+  rewrite H12.
+  (* PartitionByInstanceName, RemoveEmptyBlob *)
+  assert (H13 : c13 (map enc_entry ds) us u (enc_out enc_sets (partition_by_instance_name u)) = false).
+  { rewrite Hdu. apply c13_false; assumption. }
+  assert (H14 : c14 (map enc_entry ds) us u (enc_out enc_list (remove_empty_blob u)) = false).
+  { rewrite Hdu. apply c14_false; [assumption|assumption|]. rewrite <- Hdu. exact Hus. }
+  rewrite H13, H14.
+  assert (H15 : c15 built (L (map (fun s => of_option enc_bytes (first s)) built)) = false).
+  { unfold c15. apply negb_false_iff. apply sx_eqb_refl. }
+  rewrite H15.
+  (* no panic marker *)
+  match goal with |- flag 9 ?b ++ _ = [] => assert (Hb : b = false); [|rewrite Hb; reflexivity] end.
+  destruct (remove_empty_spec_proof du Vdu) as (r & Hr & _); [rewrite <- Hdu; exact Hus|].
+  rewrite <- Hdu in Hr. rewrite Hps, Hr. cbn [enc_out].
+  repeat rewrite ?has_panic_cons, ?has_panic_nil, ?has_panic_list, ?has_panic_sets.
+  rewrite !has_panic_A by lia.
+  rewrite (has_panic_map (fun v => enc_out enc_bytes (get_key v 0)) us).
+  2:{ intros v Hv. apply in_map_iff in Hv. destruct Hv as (d & <- & Hd). rewrite Forall_forall in V.
+      destruct (pack_unpack_accessors d (V d Hd)) as (_ & _ & _ & _ & _ & _ & K & _). rewrite K.
+      apply has_panic_enc_out; [apply good_ok|]. intros. apply has_panic_bytes. }
+  rewrite (has_panic_map (fun s => of_option enc_bytes (first s)) built).
+  2:{ intros s _. destruct (first s) as [x|]; cbn [of_option]; [|reflexivity].
+      rewrite has_panic_cons, has_panic_nil, has_panic_bytes. reflexivity. }
+  reflexivity.
+Qed.
+
+(** * The theorem *)
+
+(** The universe of a set case is a list of canonically written valid digests,
+    and the sets are lists of indices into it. *)
+Definition universe_ok (inp : sx) : Prop :=
+  exists ds, Forall valid_digest ds /\ sx_list (sx_nth inp 1) = map enc_entry ds
+    /\ Forall (fun s => Forall (fun i => (i < length ds)%nat) (sx_nats s)) (sx_list (sx_nth inp 2)).
+
+Definition inp_wf20 (inp : sx) : Prop :=
+  (sx_Z (sx_nth inp 0) = 3 -> sx_Z (sx_nth inp 4) < 2 ^ 63)
+  /\ (sx_Z (sx_nth inp 0) = 6 -> universe_ok inp).
+
+Theorem mon20_silent_on_model inp : inp_wf20 inp -> mon20 inp (run20 inp) = [].
+Proof.
+  intros [H3 H6]. unfold mon20, run20.
+  destruct (sx_Z (sx_nth inp 0)) as [|p|p] eqn:E; [apply silent_read_path| |reflexivity].
+  do 3 (try destruct p as [p|p|]); try reflexivity;
+    match type of E with
+    | _ = 6 => destruct (H6 eq_refl) as (ds & V & Hent & Hs); eapply silent_sets; eauto
+    | _ = 4 => apply silent_compact
+    | _ = 2 => apply silent_instance_name
+    | _ = 3 => apply silent_structured; apply H3; reflexivity
+    | _ = 1 => apply silent_write_path
+    end.
+Qed.
+
+(** * Every hypothesis is needed: the monitor fires on the model without it *)
+Definition ex_md5hex : sx :=
+  L (map A [56; 98; 49; 97; 57; 57; 53; 51; 99; 52; 54; 49; 49; 50; 57; 54; 97; 56; 50; 55; 97; 98; 102; 56; 99; 52; 55; 56; 48; 52; 100; 55]).
+Definition ex_uuid : sx := L (map A [1; 2; 3; 4; 5; 6; 7; 8; 9; 10; 11; 12; 13; 14; 15; 16]).
+Definition ex_structured (size : Z) : sx := L [A 3; L [A 97]; A 3; ex_md5hex; A size; A 0; ex_uuid].
+Definition ex_entry (inst : sx) (fn size : Z) : sx := L [inst; A fn; ex_md5hex; A size].
+Definition ex_sets (u s : sx) : sx := L [A 6; u; s].
+
+(** a structured digest whose size is 2^63 (not an int64): accepted by the
+    model's constructor (which only rejects negative sizes), degenerate for the monitor *)
+Example size_bound_needed :
+  mon20 (ex_structured (2 ^ 63)) (run20 (ex_structured (2 ^ 63))) = [8; 1; 2; 3; 4; 5].
+Proof. vm_compute. reflexivity. Qed.
+
+(** two universe entries that differ only in how a byte is written (-5 decodes to 0) *)
+Example canonical_entries_needed :
+  let i := ex_sets (L [ex_entry (L [A 0]) 3 5; ex_entry (L [A (-5)]) 3 5]) (L []) in
+  mon20 i (run20 i) = [6].
+Proof. vm_compute. reflexivity. Qed.
+
+(** a universe entry that is not a digest (digest function 99) *)
+Example valid_entries_needed :
+  let i := ex_sets (L [ex_entry (L [A 97]) 99 5]) (L []) in mon20 i (run20 i) = [6; 13; 14].
+Proof. vm_compute. reflexivity. Qed.
+
+(** a universe entry of size 2^64 (the accessor's int64 arithmetic wraps it to 0) *)
+Example entry_size_needed :
+  let i := ex_sets (L [ex_entry (L [A 97]) 3 (2 ^ 64)]) (L [L [A 0]]) in mon20 i (run20 i) = [14].
+Proof. vm_compute. reflexivity. Qed.
+
+(** a set member that is not an index into the universe *)
+Example set_index_needed :
+  let i := ex_sets (L [ex_entry (L [A 97]) 3 5]) (L [L [A 5]]) in mon20 i (run20 i) = [9; 11; 13; 14].
+Proof. vm_compute. reflexivity. Qed.
+
+(** Non-vacuity: a set case inside the domain (two digests with different instance
+    names, the second an empty blob; two overlapping sets). *)
+Definition ex_sets_ok : sx :=
+  ex_sets (L [ex_entry (L [A 97]) 3 5; ex_entry (L [A 98]) 3 0]) (L [L [A 0; A 1]; L [A 1]]).
+
+Example ex_sets_ok_wf : inp_wf20 ex_sets_ok.
+Proof.
+  split; [intro H; vm_compute in H; discriminate|]. intros _.
+  assert (Hv : forall inst size, (inst = [97%N] \/ inst = [98%N]) -> 0 <= size < 2 ^ 63 ->
+             valid_digest {| d_fn := 3%N; d_hash := sxb ex_md5hex; d_size := size; d_inst := inst |}).
+  { intros inst size Hi Hs. constructor; cbn [d_fn d_hash d_size d_inst].
+    - vm_compute. tauto.
+    - exists 16%N. split; reflexivity.
+    - reflexivity.
+    - exact Hs.
+    - exists [inst]. split; [reflexivity|]. constructor; [|constructor].
+      destruct Hi as [-> | ->]; (split; [discriminate|split; [cbn; unfold slash; intuition discriminate|]]);
+        intro K; apply memb_In in K; vm_compute in K; discriminate. }
+  exists [ {| d_fn := 3%N; d_hash := sxb ex_md5hex; d_size := 5; d_inst := [97%N] |};
+           {| d_fn := 3%N; d_hash := sxb ex_md5hex; d_size := 0; d_inst := [98%N] |} ].
+  split; [|split].
+  - constructor; [apply Hv; [auto|lia]|constructor; [apply Hv; [auto|lia]|constructor]].
+  - reflexivity.
+  - repeat constructor.
+Qed.
+
+Example ex_sets_ok_silent : mon20 ex_sets_ok (run20 ex_sets_ok) = [].
+Proof. apply mon20_silent_on_model, ex_sets_ok_wf. Qed.
